@@ -222,6 +222,19 @@ def _kl(case, ctx, g):
     ctx.close("kl", got, ref, "direct", cls=f"kl:{case['r1']}|{case['r2']}")
     same = torch.distributions.kl_divergence(p, MVN(m1.clone(), make_same(case["r1"], o1, C1)))
     ctx.close("kl_identical_zero", same, torch.zeros_like(same), (1e-6, 0.0), cls="kl:identical")
+    # the event size exactly AT the Cholesky size limit (Cholesky is documented for sizes up to and including it), with a
+    # Lanczos rank far too small to be exact: fresh objects, nothing cached
+    from gpytorch import settings as S
+
+    g2 = util.gen(case["seed"])
+    o1b, _ = make_cov(case["r1"], g2, case["b1"], N)
+    o2b, _ = make_cov(case["r2"], g2, case["b2"], N)
+    try:
+        with S.max_cholesky_size(N), S.max_root_decomposition_size(2):
+            got_t = torch.distributions.kl_divergence(MVN(m1, o1b), MVN(m2, o2b))
+        ctx.close("kl", got_t, ref, "direct", cls=f"kl:{case['r1']}|{case['r2']}:event_size_at_cholesky_limit")
+    except Exception as e:
+        ctx.fail("kl", f"kl_divergence at the Cholesky size limit raised {type(e).__name__}: {str(e)[:120]}", "raise", exc=type(e).__name__, at_limit=True)
     ctx.cell(_cellkey(case))
 
 
